@@ -475,6 +475,7 @@ class _NP(object):
     append = staticmethod(arr.np_append)
     delete = staticmethod(arr.np_delete)
     allclose = staticmethod(arr.np_allclose)
+    isclose = staticmethod(arr.np_isclose)
     argsort = staticmethod(arr.np_argsort)
 
     @staticmethod
@@ -597,7 +598,9 @@ class _ScipyLA(object):
 
     @staticmethod
     def qr(a, mode='full', **kw):
-        return _la_call('qr', lambda m: tuple(_LA.qr(m, mode=mode)), (arr.asarr(a),), {})
+        kw2 = dict(kw)
+        kw2['mode'] = mode
+        return _la_call('qr', lambda m: tuple(_LA.qr(m, **kw2)), (arr.asarr(a),), kw2)
 
     @staticmethod
     def solve_triangular(a, b, trans=0, **kw):
